@@ -506,6 +506,17 @@ pub const NAME_CASES: [(&str, &str, &str); 24] = [
     ("<n:r xmlns:n='u' xmlns:m='u'><m:a/></n:r>", "local-name(/*/*)", "a"),
 ];
 
+// XPath 1.0 4.4 number() on strings, 4.2 string() on numbers: (expression, string value of the result)
+pub const NUMBER_CASES: [(&str, &str); 40] = [
+    ("number(' 12 ')", "12"), ("number('\t\n1\r')", "1"), ("number('12')", "12"), ("number('-12')", "-12"), ("number('12.5')", "12.5"), ("number('-.5')", "-0.5"),
+    ("number('5.')", "5"), ("number('.5')", "0.5"), ("number('  -0.25  ')", "-0.25"), ("number('007')", "7"),
+    ("number('1e3')", "NaN"), ("number('1E3')", "NaN"), ("number('+1')", "NaN"), ("number('inf')", "NaN"), ("number('Infinity')", "NaN"), ("number('-Infinity')", "NaN"),
+    ("number('infinity')", "NaN"), ("number('nan')", "NaN"), ("number('NaN')", "NaN"), ("number('- 1')", "NaN"), ("number('1 2')", "NaN"), ("number('')", "NaN"),
+    ("number('   ')", "NaN"), ("number('.')", "NaN"), ("number('-')", "NaN"), ("number('-.')", "NaN"), ("number('1.2.3')", "NaN"), ("number('--1')", "NaN"),
+    ("number('1-')", "NaN"), ("number('0x10')", "NaN"), ("number('1_0')", "NaN"), ("number('\u{a0}1')", "NaN"), ("number('\u{661}')", "NaN"),
+    ("number(/r)", "7"), ("/r/@a + 1", "13"), ("/r/@b + 0", "NaN"), ("/r/@c + 0", "NaN"), ("/r/@d + 0", "NaN"), ("' 12 ' = 12", "true"), ("/r/@a = 12", "true"),
+];
+
 // the thirteen axes on one document; expected: string value of the expression (names joined by the expression itself)
 pub const AXIS_DOC: &str = "<r><a><b><e/></b><f/></a><c><d/><g><h/></g></c><i/></r>";
 pub const AXIS_CASES: [(&str, &str); 30] = [
@@ -610,7 +621,7 @@ pub fn xpath_query_op(kind: &str, a: &Args) -> Option<Outcome> {
             Some(Outcome { observed, expected: format!("Number({}.0 bits:{:#018x})", want, want.parse::<f64>().unwrap().to_bits()), note: d.to_string() })
         }
         // C10: name tests and name functions against expanded names; the caller binds q -> "u" and w -> "w"
-        "names" | "axes" => {
+        "names" | "axes" | "numbers" => {
             let want = a.get("expected").cloned().unwrap_or_default();
             let observed = guard(|| {
                 let mut c = Context::default();
@@ -1008,6 +1019,11 @@ pub fn xpath_grid(rest: &[&str]) -> Vec<Args> {
         ["query", "names"] => {
             for (d, q, e) in NAME_CASES {
                 out.push(mk(&[("doc", d), ("query", q), ("expected", e)]));
+            }
+        }
+        ["query", "numbers"] => {
+            for (q, e) in NUMBER_CASES {
+                out.push(mk(&[("doc", "<r a=' 12 ' b='1e3' c='+1' d='inf'> 7 </r>"), ("query", q), ("expected", e)]));
             }
         }
         ["query", "axes"] => {
